@@ -48,12 +48,16 @@ def obligations(cx):
                     continue
                 none_raise(cx, "convert.%s.returns" % nm, ps, function=fn)
                 no_abnormal(cx, "convert.%s" % nm, ps, function=fn)
-                rr = only_return(ps, nm)
-                out = rr.value
-                cx.ob("convert.%s.units" % nm, [], blit(isinstance(out, Obj) and out.cls == 'Permeance' and out.f['units'] == tu and out is not p0), kind='paths', function=fn)
-                cx.ob("convert.%s.value" % nm, rr.pc, eq(out.f['value'], v * factor(fu, M) / factor(tu, M)), function=fn,
-                      statement="result = value * f(from)/f(to), f(kg)=1/(3600 M), f(GPU)=3.35e-10, f(SI)=1")
-                if has_comp: results[(fu, tu)] = (rr, out)
+                rets = returns(ps)
+                if not rets: raise Unsupported("no normal path for %s" % nm)
+                for pi, rr in enumerate(rets):          # every normal path (a branch on the value is a path of its own)
+                    out = rr.value; sfx = "" if pi == 0 else ".path%d" % pi
+                    cx.ob("convert.%s.units%s" % (nm, sfx), [], blit(isinstance(out, Obj) and out.cls == 'Permeance' and out.f['units'] == tu and out is not p0), kind='paths', function=fn,
+                          statement="the result is a new Permeance labelled with the target units")
+                    if isinstance(out, Obj) and out.cls == 'Permeance':
+                        cx.ob("convert.%s.value%s" % (nm, sfx), rr.pc, eq(out.f['value'], v * factor(fu, M) / factor(tu, M)), function=fn,
+                              statement="result = value * f(from)/f(to), f(kg)=1/(3600 M), f(GPU)=3.35e-10, f(SI)=1")
+                if has_comp: results[(fu, tu)] = (rets[0], rets[0].value)
                 if has_comp and tier_all(cx):
                     differential(cx, fn, p0, [], dict(to_units=tu, component=comp), ps, {'v': (0.0, 5.0), 'M1': (10, 200), '*': (0.1, 2.0)}, n=6, label=nm)
     # linearity, path independence, invertibility - on the real function applied repeatedly
@@ -63,22 +67,27 @@ def obligations(cx):
             for u in units[1:]:
                 p = ex.call_function(src.find(fn), [], dict(to_units=u, component=comp), self_obj=p, inline=True)
             return p
-        return only_return(cx.explore(run, pre=preM + [v >= 0, var('v2') >= 0, var('k') >= 0]), "chain %s" % (units,))
+        rs_ = [q for q in returns(cx.explore(run, pre=preM + [v >= 0, var('v2') >= 0, var('k') >= 0])) if isinstance(q.value, Obj) and q.value.cls == 'Permeance']
+        if not rs_: raise Unsupported("no normal path for chain %s" % (units,))
+        return rs_
+    import itertools
+    def combos(*lists): return list(enumerate(itertools.product(*lists)))
     v2, k = var('v2'), var('k')
     for a in UNITS:
         for b in UNITS:
             if a == b: continue
-            ra = chain([a, b], v); rb = chain([a, b], v2); rs = chain([a, b], k * v + v2)
-            cx.ob("linear.%s->%s" % (a, b), ra.pc + rb.pc + rs.pc, eq(rs.value.f['value'], k * ra.value.f['value'] + rb.value.f['value']), function=fn,
-                  statement="conversion is linear in the value")
-            back = chain([a, b, a], v)
-            cx.ob("invertible.%s->%s->%s" % (a, b, a), back.pc, eq(back.value.f['value'], v), function=fn, statement="A->B->A returns the original value")
+            for ci, (ra, rb, rs) in combos(chain([a, b], v), chain([a, b], v2), chain([a, b], k * v + v2)):
+                cx.ob("linear.%s->%s%s" % (a, b, "" if ci == 0 else ".paths%d" % ci), ra.pc + rb.pc + rs.pc, eq(rs.value.f['value'], k * ra.value.f['value'] + rb.value.f['value']), function=fn,
+                      statement="conversion is linear in the value")
+            for ci, (back,) in combos(chain([a, b, a], v)):
+                cx.ob("invertible.%s->%s->%s%s" % (a, b, a, "" if ci == 0 else ".paths%d" % ci), back.pc, eq(back.value.f['value'], v), function=fn, statement="A->B->A returns the original value")
             for c in UNITS:
                 if c in (a, b): continue
-                via = chain([a, b, c], v); direct = chain([a, c], v)
-                cx.ob("path-independent.%s->%s->%s" % (a, b, c), via.pc + direct.pc, eq(via.value.f['value'], direct.value.f['value']), function=fn,
-                      statement="A->B->C equals A->C")
-    ra = chain(['GPU', 'SI'], v)
+                for ci, (via, direct) in combos(chain([a, b, c], v), chain([a, c], v)):
+                    cx.ob("path-independent.%s->%s->%s%s" % (a, b, c, "" if ci == 0 else ".paths%d" % ci), via.pc + direct.pc, eq(via.value.f['value'], direct.value.f['value']), function=fn,
+                          statement="A->B->C equals A->C")
+    from .lockstep import feasible
+    ra = ([q for q in chain(['GPU', 'SI'], v) if feasible(q.pc + [v > 0])] or chain(['GPU', 'SI'], v))[0]
     cx.must_fail("convert.GPU->SI", ra.pc + [v > 0], eq(ra.value.f['value'], v * Fraction(336, 10 ** 12)))
     cx.cover("convert.kg->SI", results[('kg/(m2*h*kPa)', 'SI')][0].pc)
     # __add__: same units required, result through the constructor (invariant kept)
